@@ -61,6 +61,26 @@ CATCH = {
  "C18-r3": (["C18"], ["C18|wire|touching-tx-outputs-differ"], False, "C18: after-wire comparison of kept transactions' outputs"),
  "C19-r3": (["C19"], ["C19|built-tx|does-not-validate|spend","C19|unspent-set-differs-from-ledger|missing"], False, "C19: ordinary transaction with replacement count != 1 next to payments"),
  "C20-r3": (["C20"], ["C20|order|wallet-held-then-config|network.rs<-network.rs","C20|order|wallet-held-then-peers|network.rs<-network.rs"], True, ""),
+ "C01-r4": (["C13"], ["C13|expired-output-spendable|pool"], True, "caught by C13 (window clause); C01's worlds use a large genesis period"),
+ "C02-r4": (["C01"], ["C01|panic|blockchain.rs:cannot_continue_with_invalid_total_supply"], False, "C01: edit duplicate-input-across-txs-zero-lead"),
+ "C03-r4": (["C03"], ["C03|index|wrong-at-height"], True, ""),
+ "C04-r4": (["C04"], ["C04|trace-left|wallet"], True, ""),
+ "C05-r4": (["C04","C05"], ["C04|trace-left|tip","C05|moved|not-strictly-longer","C05|not-adopted|qualifying-chain"], False, "caught by C04 as found; C05: prune depth 1/2/3"),
+ "C06-r4": (["C06"], ["C06|accepted-under-same-hash|remove-all-txs"], False, "C06: edit remove-all-txs"),
+ "C07-r4": (["C07"], ["C07|producer-refused-own-block|network|other"], False, "C07: social staking enabled in a quarter of the network-family runs"),
+ "C08-r4": (["C08"], ["C08|accepted|insufficient-work|rounding-boundary"], False, "C08: rounding-boundary runs"),
+ "C09-r4": (["C03"], ["C03|ledger|both","C03|panic|merkle.rs:called_Option_unwrap_on_None_value"], True, "caught by C03; C09 does not compare a restored block's derived data"),
+ "C10-r4": (["C10"], ["C10|panic|decoder|msg|api_message.rs:range_end_index_out_of_range"], True, ""),
+ "C11-r4": (["C11","C16"], ["C11|state-changed-by-hostile-input|header-hash-storm","C16|in-flight-exceeds-batch-size"], True, ""),
+ "C12-r4": (["C12"], ["C12|clean-restart|tip-differs","C12|restart|ledger-differs"], True, ""),
+ "C13-r4": (["C01"], ["C01|accepted|type-atr-plain-output|block-tip","C01|accepted|type-atr-plain-output|block-fork"], True, "caught by C01 (dishonest-producer input)"),
+ "C14-r4": (["C13"], ["C13|expired-output-spendable|pool"], True, "caught by C13; C14's world has a large genesis period"),
+ "C15-r4": (["C15"], ["C15|not-converged|peer-chain-longer-than-ring"], False, "C15: long-chain family"),
+ "C16-r4": (["C16"], ["C16|unbounded-retries"], True, ""),
+ "C17-r4": (["C17"], ["C17|connected-without-key"], True, ""),
+ "C18-r4": ([], [], False, "NOT CAUGHT: the change is in saito-rust's HTTP route, which the simulator replaces by Sim::serve_fetch (DESIGN section 7)"),
+ "C19-r4": (["C19"], ["C19|balance-differs-from-unspent-sum|receive","C19|balance-differs-from-unspent-sum|block-plain"], True, ""),
+ "C20-r4": ([], [], False, "NOT CAUGHT: the change is in saito-spammer, which the simulator does not run (DESIGN section 7)"),
  "C20": (["C20"], ["C20|order|wallet-held-then-blockchain|verification_thread.rs<-verification_thread.rs","C20|deadlock|consensus:blockchain+config>wallet|verification:wallet>blockchain"], True, ""),
 }
 extra = {}
